@@ -677,7 +677,8 @@ where
 
         let publish = GenericPublish {
             fixed_header: [fixed_header_byte],
-            remaining_length: VariableByteInteger::from_u32(remaining_size as u32).unwrap(),
+            remaining_length: VariableByteInteger::from_len(remaining_size)
+                .map_err(|_| MqttError::MalformedPacket)?,
             topic_name_buf: topic_name,
             packet_id_buf,
             payload_buf: payload,
